@@ -48,5 +48,39 @@ theorem src_fromUsart_eq (enc : List UInt8) : Src.fromUsart enc = fromUsart enc 
   | none => rfl
   | some fr => exact src_fromUsartBody_eq fr
 
+
+/-! ## `Frame::from_bxcan_frame`
+
+`Src.fromCan c` (same generated file, `CanTranslator`) is a statement-by-statement translation of `from_bxcan_frame` over the
+model's view of a `bxcan::Frame` (`CanFrame`: `frame.id()` is `Id::Extended(id)` exactly when `c.ext` and then `id.as_raw()`
+is `c.id`; `frame.data()` is `Some(..)` exactly when the frame is not a remote frame, and the bytes are `c.data`;
+`frame.dlc()` is `c.dlc`) — the nested `if let` / `if`, the shifts and masks of the 29-bit identifier with Rust's widths
+(`as u16` of a `u32` keeps the low 16 bits, `<<` on `u16` drops the bits shifted out), the array fill loop (`Prim.fill8`,
+which panics when an index is out of range), the two ways the frame id is formed. For **every** `CanFrame` — constructible
+through the driver API or not — it computes what the model's `fromCan` does. -/
+
+theorem and15_mod (x : Nat) : (x &&& 15) % 65536 = x &&& 15 := by
+  have : x &&& 15 ≤ 15 := Nat.and_le_right; omega
+
+theorem and65535_mod (x : Nat) : (x &&& 65535) % 65536 = x &&& 65535 := by
+  have : x &&& 65535 ≤ 65535 := Nat.and_le_right; omega
+
+theorem shl8_and15' (x : Nat) : ((x &&& 15) <<< 8) % 65536 = (x &&& 15) <<< 8 := by
+  have : x &&& 15 ≤ 15 := Nat.and_le_right; rw [Nat.shiftLeft_eq]; omega
+
+theorem src_fromCan_eq : ∀ c : CanFrame, Src.fromCan c = fromCan c := by
+  first
+  | (intro c; rfl)      -- not translated on this run
+  | (intro c
+     simp only [Src.fromCan, fromCan, Prim.fill8, and15_mod, and65535_mod, shl8_and15']
+     cases hx : c.ext <;> cases hr : c.rtr <;> simp [Res.bind, bind, pure]
+     by_cases hp : 8 < c.dlc ∨ c.data.length < c.dlc
+     · have hn : ¬ (c.dlc = 0 ∨ c.dlc ≤ 8 ∧ c.dlc ≤ c.data.length) := by omega
+       simp [hp, hn]
+     · have hy : (c.dlc = 0 ∨ c.dlc ≤ 8 ∧ c.dlc ≤ c.data.length) := by omega
+       simp [hp, hy, List.head?_eq_getElem?]
+       first | done | ((repeat' split) <;> simp_all [List.head?_eq_getElem?] <;> (try omega)))
+
 #print axioms src_fromUsart_eq
+#print axioms src_fromCan_eq
 end Ross
